@@ -150,7 +150,7 @@ theorem prepare_ok_iff (fmt : Fmt) (r : Req) (p : Prepared) :
        r.signer = some p.s ∧ p.s.keySpec = some p.ks ∧ r.scheme ≠ "" ∧ signatureAlgorithm p.ks ≠ 0 ∧
        (r.scheme = schemeX509 ∨ r.scheme = schemeAuthority) ∧ extOK fmt r.ext [] = true ∧ r.timesEncodable = true ∧
        (fmt = .jws → r.jwsObject = true) ∧ (fmt = .cose → r.ctyOK = true) ∧ (∀ a ∈ r.ext, a.encodable = true) ∧
-       p.s.signs = true ∧ deliveredChain fmt p.s = some p.ci ∧ tsStep r = some p.tst) := by
+       p.s.signs = true ∧ deliveredChain fmt p.s = some p.ci ∧ tsStep r = some p.tst ∧ (fmt = .cose → p.s.sigLen ≠ 0)) := by
   unfold prepare
   by_cases h1 : (r.payloadLen == 0) = true
   · simp [h1]; intro h; simp at h1; exact absurd h1 h
@@ -197,31 +197,42 @@ theorem prepare_ok_iff (fmt : Fmt) (r : Req) (p : Prepared) :
                         · simp only [h10, Bool.not_true, Bool.false_eq_true, if_false]
                           by_cases h11 : s.signs = true
                           · simp only [h11, Bool.not_true, Bool.false_eq_true, if_false]
-                            cases hc : deliveredChain fmt s with
-                            | none =>
-                              simp only [reduceCtorEq, false_iff, not_and]
-                              intro _ _ he _ _ _ _ _ _ _ _ _ _ hc'; cases he; rw [hc] at hc'; cases hc'
-                            | some ci =>
-                              simp only []
-                              cases ht : tsStep r with
+                            by_cases h12 : (fmt == .cose && s.sigLen == 0) = true
+                            · simp only [h12, if_true, reduceCtorEq, false_iff, not_and]
+                              intro _ _ he _ _ _ _ _ _ _ _ _ _ _ _ hsl
+                              cases he
+                              simp only [Bool.and_eq_true, beq_iff_eq] at h12
+                              exact hsl h12.1 h12.2
+                            · simp only [h12, Bool.false_eq_true, if_false]
+                              cases hc : deliveredChain fmt s with
                               | none =>
                                 simp only [reduceCtorEq, false_iff, not_and]
-                                intro _ _ _ _ _ _ _ _ _ _ _ _ _ _ h; cases h
-                              | some tst =>
-                                simp only [Except.ok.injEq]
-                                constructor
-                                · intro h; subst h
-                                  refine ⟨by simpa using h1, trivial, rfl, hk, by simpa using h3, by simpa using h4, by simpa using h5, trivial, trivial, ?_, ?_, by simpa using h10, h11, hc, rfl⟩
-                                  · intro hf; subst hf; simpa using h8
-                                  · intro hf; subst hf; simpa using h9
-                                · rintro ⟨_, _, he, hk', _, _, _, _, _, _, _, _, _, hc', ht'⟩
-                                  obtain ⟨ps, pks, pci, ptst⟩ := p
-                                  simp only [Option.some.injEq] at he ht'
-                                  subst he
-                                  rw [hk] at hk'; cases hk'
-                                  rw [hc] at hc'; cases hc'
-                                  subst ht'
-                                  rfl
+                                intro _ _ he _ _ _ _ _ _ _ _ _ _ hc'; cases he; rw [hc] at hc'; cases hc'
+                              | some ci =>
+                                simp only []
+                                cases ht : tsStep r with
+                                | none =>
+                                  simp only [reduceCtorEq, false_iff, not_and]
+                                  intro _ _ _ _ _ _ _ _ _ _ _ _ _ _ h; cases h
+                                | some tst =>
+                                  simp only [Except.ok.injEq]
+                                  constructor
+                                  · intro h; subst h
+                                    refine ⟨by simpa using h1, trivial, rfl, hk, by simpa using h3, by simpa using h4, by simpa using h5, trivial, trivial, ?_, ?_, by simpa using h10, h11, hc, rfl, ?_⟩
+                                    · intro hf; subst hf; simpa using h8
+                                    · intro hf; subst hf; simpa using h9
+                                    · intro hf hsl
+                                      apply h12
+                                      have : s.sigLen = 0 := hsl
+                                      simp [hf, this]
+                                  · rintro ⟨_, _, he, hk', _, _, _, _, _, _, _, _, _, hc', ht', _⟩
+                                    obtain ⟨ps, pks, pci, ptst⟩ := p
+                                    simp only [Option.some.injEq] at he ht'
+                                    subst he
+                                    rw [hk] at hk'; cases hk'
+                                    rw [hc] at hc'; cases hc'
+                                    subst ht'
+                                    rfl
                           · simp only [h11, Bool.not_false, if_true, reduceCtorEq, false_iff, not_and]
                             intro _ _ he _ _ _ _ _ _ _ _ _ hs'; cases he; exact absurd hs' h11
                         · simp only [h10, Bool.not_false, if_true, reduceCtorEq, false_iff, not_and]
@@ -277,13 +288,13 @@ theorem sign_ok_iff (fmt : Fmt) (r : Req) :
       obtain ⟨b1, b2, _⟩ := (finish_ok_iff fmt r p c).mp h
       obtain ⟨t1, t2⟩ := (validTimes_iff _ _).mp a2
       exact ⟨a1, a10, a11, t1, t2, a9, a7, ⟨p.s, p.ks, p.ci, a3, a4, a6, a13, b1, deliveredChain_valid fmt p.s p.ci _ _ a14 b2, b2⟩, (extOK_keysOK fmt r.ext).mp a8, a12,
-        (tsStep_some_iff r).mp ⟨p.tst, a15⟩⟩
+        (tsStep_some_iff r).mp ⟨p.tst, a15.1⟩⟩
   · rintro ⟨v1, v2, v3, v4, v5, v6, v7, ⟨s, ks, ci, s1, s2, s3, s4, s5, s6, s7⟩, v9, v10, v11⟩
     obtain ⟨tst, ht⟩ := (tsStep_some_iff r).mpr v11
     have hne : r.scheme ≠ "" := by
       rcases v7 with h | h <;> rw [h] <;> decide
     have hp : prepare fmt r = .ok { s := s, ks := ks, ci := ci, tst := tst } :=
-      (prepare_ok_iff fmt r _).mpr ⟨v1, (validTimes_iff _ _).mpr ⟨v4, v5⟩, s1, s2, hne, s3, v7, (extOK_keysOK fmt r.ext).mpr v9, v6, v2, v3, v10, s4, deliveredChain_of_some fmt s ci s6, ht⟩
+      (prepare_ok_iff fmt r _).mpr ⟨v1, (validTimes_iff _ _).mpr ⟨v4, v5⟩, s1, s2, hne, s3, v7, (extOK_keysOK fmt r.ext).mpr v9, v6, v2, v3, v10, s4, deliveredChain_of_some fmt s ci s6, ht, fun _ => s5⟩
     rw [hp]
     exact ⟨_, (finish_ok_iff fmt r _ _).mpr ⟨s5, s7, rfl⟩⟩
 
